@@ -31,7 +31,25 @@ NODES = (
                                         ("do_token", TR, "-"), ("block", BLKT, "ref"), ("end_token", TR, "-")])
     + node_specs("LocalFunction", "n_lfun", [("local_token", TR, "-"), ("function_token", TR, "-"), ("name", TR, "ref"), ("body", "FunctionBody", "ref")])
     + node_specs("FunctionDeclaration", "n_fdecl", [("function_token", TR, "-"), ("name", "FunctionName", "ref"), ("body", "FunctionBody", "ref")])
-    + node_specs("FunctionBody", "n_fb", [("block", BLKT, "ref")])
+    + node_specs("FunctionBody", "n_fb", [("block", BLKT, "ref"), ("parameters_parentheses", "ContainedSpan", "ref")], rest=True)
+    + """
+#[cfg(feature = "luau")] #[verifier::external_type_specification] #[verifier::external_body] pub struct ExGenericDeclaration(full_moon::ast::luau::GenericDeclaration);
+// (the generics are part of "everything else a function body holds": a builder that leaves the rest alone leaves them alone)
+#[cfg(feature = "luau")] pub uninterp spec fn generics_of_rest(rest: int) -> Option<full_moon::ast::luau::GenericDeclaration>;
+#[cfg(feature = "luau")] pub open spec fn n_fb_generics(n: &FunctionBody) -> Option<full_moon::ast::luau::GenericDeclaration> { generics_of_rest(n_fb_rest(n)) }
+#[cfg(feature = "luau")] pub assume_specification [FunctionBody::generics] (n: &FunctionBody) -> (r: Option<&full_moon::ast::luau::GenericDeclaration>) ensures (r is Some) == (n_fb_generics(n) is Some), r is Some ==> *r->Some_0 == n_fb_generics(n)->Some_0;
+#[cfg(feature = "luau")] pub assume_specification [FunctionBody::with_generics] (n: FunctionBody, v: Option<full_moon::ast::luau::GenericDeclaration>) -> (r: FunctionBody) ensures n_fb_generics(&r) == v, n_fb_block(&r) == n_fb_block(&n), n_fb_parameters_parentheses(&r) == n_fb_parameters_parentheses(&n);
+#[cfg(feature = "luau")] impl UpdateLeadingTrivia for full_moon::ast::luau::GenericDeclaration {
+    open spec fn same_sem(&self, r: &Self) -> bool { true }
+    open spec fn lead_ok(&self, t: FormatTriviaType, r: &Self) -> bool { ftt_new_line(t) ==> other_nl(*r) }
+    open spec fn on_new_line(&self) -> bool { other_nl(*self) }
+    open spec fn rest_same(&self, r: &Self) -> bool { true }
+    #[verifier::external_body] fn update_leading_trivia(&self, leading_trivia: FormatTriviaType) -> (r: Self) { unimplemented!() }
+}
+// the first token of a function body starts a new line: its generics if it has any (Luau), its parameter parentheses otherwise
+#[cfg(feature = "luau")] pub open spec fn fb_on_new_line(f: &FunctionBody) -> bool { if n_fb_generics(f) is Some { other_nl(n_fb_generics(f)->Some_0) } else { tok_nl(span_open(n_fb_parameters_parentheses(f))) } }
+#[cfg(not(feature = "luau"))] pub open spec fn fb_on_new_line(f: &FunctionBody) -> bool { tok_nl(span_open(n_fb_parameters_parentheses(f))) }
+"""
     + node_specs("NumericFor", "n_nfor", [("for_token", TR, "-"), ("index_variable", TR, "ref"), ("equal_token", TR, "-"), ("start", EXP, "ref"), ("start_end_comma", TR, "-"),
                                         ("end", EXP, "ref"), ("end_step_comma", TR, "opt"), ("step", EXP, "opt"), ("do_token", TR, "-"), ("block", BLKT, "ref"), ("end_token", TR, "-")])
 )
@@ -225,10 +243,15 @@ impl UpdateTrailingTrivia for FunctionBody {
             Hole("FunctionName::new(formatted_names).with_method(formatted_method)", "proof { assert(name_sig(formatted_names) =~= name_sig(fname_names(*function_name))); }\n    FunctionName::new(formatted_names).with_method(formatted_method)", kind="ghost-name", why="proof hint: the two name sequences are equal item by item"),
         ]),
         Fn(FUN, "format_function_body", mode="stub", proved_in="collapse", contract="ensures census(&n_fb_block(&r)) == census(&n_fb_block(function_body)),"),
+        Fn(FUN, "function_body_below_comment", contract="""
+    ensures n_fb_block(&r) == n_fb_block(&function_body), //# C02.function_body_below_comment_same
+            tok_open(*preceding_token) ==> fb_on_new_line(&r), //# C01.function_body_below_comment
+"""),
         Fn(FUN, "format_local_function", contract="""
     ensures tok_of(n_lfun_name(&r)) == tok_of(n_lfun_name(local_function)), //# C02.local_function_same
             census(&n_fb_block(&n_lfun_body(&r))) == census(&n_fb_block(&n_lfun_body(local_function))), //# C02.local_function_same
             tr_trail(n_lfun_name(&r)).len() >= 1 && token_type_of(tr_trail(n_lfun_name(&r)).last()) == definition_space(ctx.config), //# C11.definition_space
+            tok_open(n_lfun_name(&r)) ==> fb_on_new_line(&n_lfun_body(&r)), //# C01.function_body_below_comment
 """, edits=[Hole("strip_trivia(&formatted_name).to_string().len()", "hole_usize()", why="Display width of the name")]),
         Fn(FUN, "format_function_declaration", contract="""
     ensures fname_id(n_fdecl_name(&r)) == fname_id(n_fdecl_name(function_declaration)), //# C02.function_declaration_same
@@ -238,6 +261,7 @@ impl UpdateTrailingTrivia for FunctionBody {
         Fn(FUN, "format_anonymous_function", contract="""
     ensures census(&n_fb_block(&(*r).1)) == census(&n_fb_block(&anonymous_function.1)), //# C02.anonymous_function_same
             tr_trail((*r).0).len() >= 1 && token_type_of(tr_trail((*r).0).last()) == definition_space(ctx.config), //# C11.definition_space
+            tok_open((*r).0) ==> fb_on_new_line(&(*r).1), //# C01.function_body_below_comment
 """, edits=[Hole('const FUNCTION_LEN: usize = "function".len();', "let FUNCTION_LEN: usize = hole_usize();", why="str::len in a const: a width, used for layout only")]),
         Fn(STM, "format_do_block", contract="""
     ensures census(&n_do_block(&r)) == census(&n_do_block(do_block)), //# C02.do_keeps_statements
@@ -307,6 +331,8 @@ impl UpdateTrailingTrivia for FunctionBody {
     return its
 
 LABELS = {
+    "C02.function_body_below_comment_same": dict(props=["C02"], text="function_body_below_comment hands back the function body with the same block"),
+    "C01.function_body_below_comment": dict(props=["C01", "C03"], text="a function body whose `function` keyword (anonymous function) or name (local function) is followed by a line comment starts a new line: its parameters are not printed into the comment (one call site of the D30 class, repaired)"),
     "C01.header_keyword_closed": dict(props=["C01", "C02"], text="format_while_block / format_else_if: a line comment behind the `while` / `elseif` keyword is always followed by a line break (the header goes multiline), so the condition is never printed inside the comment"),
     "C02.function_name_same": dict(props=["C02"], text="format_function_name: the same dotted names in the same order and the same method name (`function a.b:c`)"),
     "C02.function_name_loop": dict(props=["C02"], text="format_function_name loop invariant: the names pushed so far are the input's, in order"),
